@@ -54,6 +54,9 @@ class Contract:
         self.known = []
         self.pure = False
         self.native = {}
+        self.refines = []
+        self.assumes = []          # (text, expr): assumed at entry, listed in the evidence (never silently)
+        self.for_class_obj = None
         self.stmt_hints = []       # (statement text, [lemma uses]) applied just before that statement
         self.abstract = False      # assumed contract of an abstract receiver (proved per subclass)
         self.label = None
@@ -61,7 +64,9 @@ class Contract:
     @property
     def ident(self):
         base = self.relpath + '::' + self.qualname
-        if self.for_class:
+        if self.for_class_obj is not None:
+            base += '@' + self.for_class_obj.module.relpath.rsplit('/', 1)[-1][:-3] + '.' + self.for_class_obj.name
+        elif self.for_class:
             base += '@' + self.for_class
         if self.label:
             base += '#' + self.label
@@ -86,7 +91,7 @@ class ObjSeq:
             return self._cache[key]
         fields = {}
         for k, ty in self.field_types.items():
-            fields[k] = self.reg.indexed_of_type(I, ty, '%s.%s' % (self.name, k), i)
+            fields[k] = self.reg.indexed_of_type(I, ty, '%s.%s' % (self.name, k), i, getattr(self.cls, 'module', None))
         o = VObj(self.cls, fields, tag=None)
         o.tag = z3.Function(self.name + '.id', IntS, IntS)(i)
         self._cache[key] = o
@@ -106,6 +111,7 @@ class Registry:
         self.invariants = {}       # (relpath, clsname) -> [expr]
         self.mutable = {}          # (relpath, clsname) -> set(field)
         self.global_cache = {}
+        self.formatting = set()
         self.inlined = set()
         self.lemma_used = set()
         self.want_termination = False
@@ -219,6 +225,20 @@ class Registry:
         for fn in sorted(os.listdir(directory)):
             if fn.endswith('.py') and not fn.startswith('_'):
                 self.load_contract_file(os.path.join(directory, fn))
+        # refines("Base.method"): the abstract contract's clauses become clauses of the refining contract
+        for c in list(self.contracts.values()):
+            for ref in c.refines:
+                rel, qual = (ref.split('::') if '::' in ref else (c.relpath, ref))
+                base = self.contracts.get((rel, qual, None, None))
+                if base is None:
+                    raise RuntimeError('refines(%s): no such contract' % ref)
+                c.requires = list(base.requires) + c.requires
+                c.ensures = list(base.ensures) + c.ensures
+                c.raises = c.raises + [r for r in base.raises]
+                for k, v in base.params.items():
+                    c.params.setdefault(k, v)
+                if c.returns is None:
+                    c.returns = base.returns
 
     def load_contract_file(self, path):
         with open(path) as f:
@@ -248,6 +268,10 @@ class Registry:
                     skip = 2 if (len(call.args) > 1 and isinstance(call.args[0], ast.Constant) and
                                  str(call.args[0].value).endswith('.py')) else 1
                     self.invariants.setdefault((rel, cname), []).extend(call.args[skip:])
+                elif fn == 'formatting':
+                    for a_ in call.args:
+                        v_ = ast.literal_eval(a_)
+                        self.formatting.add((default_file, v_) if '::' not in v_ else tuple(v_.split('::')))
                 elif fn == 'mutable':
                     rel, cname = self._file_cls(call.args[:1], default_file)
                     self.mutable[(rel, cname)] = set(ast.literal_eval(a) for a in call.args[1:])
@@ -275,6 +299,15 @@ class Registry:
                                 c.abstract = v
                             elif k.arg == 'bounded':
                                 c.bounded = v
+                        if c.for_class == '*':
+                            for cls in self.concrete_inheritors(rel, qual):
+                                c2 = self.parse_contract_body(rel, qual, node, path)
+                                c2.props, c2.label, c2.inline, c2.abstract, c2.bounded = c.props, c.label, c.inline, c.abstract, c.bounded
+                                c2.for_class = cls.name
+                                c2.for_class_obj = cls
+                                key = (rel, qual, cls.module.relpath + ':' + cls.name, c.label)
+                                self.contracts[key] = c2
+                            continue
                         key = (rel, qual, c.for_class, c.label)
                         if key in self.contracts:
                             raise RuntimeError('duplicate contract %r' % (key,))
@@ -342,6 +375,10 @@ class Registry:
                 elif n == 'native':
                     for k in call.keywords:
                         c.native[k.arg] = k.value
+                elif n == 'assumes':
+                    c.assumes.append((ast.literal_eval(call.args[0]), call.args[1]))
+                elif n == 'refines':
+                    c.refines.append(ast.literal_eval(call.args[0]))
                 elif n == 'at_stmt':
                     text = ast.literal_eval(call.args[0])
                     uses = []
@@ -364,13 +401,49 @@ class Registry:
                             ls.uses_step.extend(vals)
         return c
 
+    def concrete_inheritors(self, rel, qual):
+        """classes (any module) whose MRO resolves method `qual`'s name to this very definition"""
+        cname, mname = qual.split('.', 1)
+        base = self.prog.cls(rel, cname)
+        target = base.methods[mname]
+        out = []
+        for m in self.prog.modules.values():
+            for c in m.classes.values():
+                if base in self.prog.mro(c) and self.prog.find_method(c, mname) is target:
+                    if c is base and not self.instantiable(c):
+                        continue
+                    if self.instantiable(c):
+                        out.append(c)
+        return out
+
+    def instantiable(self, cls):
+        """heuristic from the source: a class is abstract when it is only used as a base (it has subclasses in the
+        repository and its name ends with Type/Mixin)"""
+        if cls.name.endswith('Mixin') or cls.name in ('Type', 'MembersType', 'ArrayType', 'StringType',
+                                                       'PrimitiveOrConstructedType', 'KnownMultiplierStringType'):
+            return False
+        return True
+
     def contract_for(self, func, self_cls=None, label=None):
         rel, qual = func.module.relpath, func.qualname
-        if self_cls is not None:
-            c = self.contracts.get((rel, qual, getattr(self_cls, 'name', None), label))
+        if self_cls is not None and isinstance(self_cls, ClassInfo):
+            c = self.contracts.get((rel, qual, self_cls.module.relpath + ':' + self_cls.name, label))
             if c is not None:
                 return c
-        return self.contracts.get((rel, qual, None, label))
+            c = self.contracts.get((rel, qual, self_cls.name, label))
+            if c is not None:
+                return c
+        c = self.contracts.get((rel, qual, None, label))
+        if c is not None:
+            return c
+        # abstract contract of an overridden base method (callers are checked against it; every override refines it)
+        if func.cls is not None:
+            for k in self.prog.mro(func.cls)[1:]:
+                if isinstance(k, ClassInfo) and func.name in k.methods:
+                    c = self.contracts.get((k.module.relpath, k.name + '.' + func.name, None, label))
+                    if c is not None and c.abstract:
+                        return c
+        return None
 
     def spec_module_for(self, contract):
         return self.prog.module_by_relpath(contract.relpath) if contract.relpath.startswith(self.prog.package) \
@@ -408,12 +481,14 @@ class Registry:
         return out
 
     def mutable_fields(self, cls):
+        """fields of an object that a callee may write.  Objects of classes without a mutable(...) declaration
+        are not written by callees at all (frame discharged separately by pyvc-own, C18)."""
         if isinstance(cls, BuiltinClass):
-            return None
-        s = None
+            return set()
+        s = set()
         for c in self.prog.mro(cls):
             if isinstance(c, ClassInfo) and (c.module.relpath, c.name) in self.mutable:
-                s = (s or set()) | self.mutable[(c.module.relpath, c.name)]
+                s = s | self.mutable[(c.module.relpath, c.name)]
         return s
 
     def check_field_write(self, I, obj, attr, fr):
@@ -445,7 +520,7 @@ class Registry:
                 return VSeq(p.fresh_seq(base), 'bytes')
             if n == 'ByteArray':
                 return VSeq(p.fresh_seq(base), 'bytearray')
-            if n == 'IntList':
+            if n in ('IntList', 'IdList'):
                 return VSeq(p.fresh_seq(base), 'list')
             if n == 'IntTuple':
                 return VSeq(p.fresh_seq(base), 'tuple')
@@ -506,8 +581,8 @@ class Registry:
                 m = self.prog.module_by_relpath(rel)
                 return I.global_value(self.prog.resolve(m, name))
             if n == 'Map':
-                kk, vk = [ast.literal_eval(a) for a in ty.args]
-                return VMap(p.fresh_name(base), kk, vk)
+                kk = ast.literal_eval(ty.args[0])
+                return VMap(p.fresh_name(base), kk, ty.args[1], self, module)
             if n == 'ObjSeq':
                 vals = [ast.literal_eval(a) for a in ty.args]
                 cls = self.prog.cls(vals[0], vals[1]) if len(vals) == 2 else self.find_class(vals[0], module)
@@ -516,24 +591,51 @@ class Registry:
                 return VConst('objseq', ObjSeq(p.fresh_name(base), ln, cls, self.declared_fields(cls), self))
         raise OutOfSubset('type annotation %s' % ast.unparse(ty))
 
-    def indexed_of_type(self, I, ty, base, i):
-        """value of field of the i-th element of an abstract object sequence"""
+    def indexed_of_type(self, I, ty, base, i, module=None):
+        """value described by annotation `ty` as an uninterpreted function of the index term i"""
+        isort = i.sort()
         if isinstance(ty, ast.Name):
             n = ty.id
             if n in ('Int', 'Nat', 'Byte'):
-                t = z3.Function(base, IntS, IntS)(i)
+                t = z3.Function(base, isort, IntS)(i)
                 if n == 'Nat':
                     I.path.assume(t >= 0)
+                if n == 'Byte':
+                    I.path.assume(z3.And(t >= 0, t <= 255))
                 return VInt(t)
             if n == 'Bool':
-                return VBool(z3.Function(base, IntS, BoolS)(i))
+                return VBool(z3.Function(base, isort, BoolS)(i))
             if n == 'Str':
-                return VStr(z3.Function(base, IntS, StrS)(i))
-            if n in ('Bytes', 'ByteArray', 'IntList'):
-                kind = {'Bytes': 'bytes', 'ByteArray': 'bytearray', 'IntList': 'list'}[n]
-                return VSeq(z3.Function(base, IntS, SeqS)(i), kind)
+                return VStr(z3.Function(base, isort, StrS)(i))
+            if n in ('Bytes', 'ByteArray', 'IntList', 'IdList'):
+                kind = {'Bytes': 'bytes', 'ByteArray': 'bytearray', 'IntList': 'list', 'IdList': 'list'}[n]
+                return VSeq(z3.Function(base, isort, SeqS)(i), kind)
             if n == 'Val':
-                return VOpaque(z3.Function(base, IntS, ValS)(i))
+                return VOpaque(z3.Function(base, isort, ValS)(i))
+            if n == 'NoneT':
+                return VNone
+        if isinstance(ty, ast.Call) and isinstance(ty.func, ast.Name):
+            n = ty.func.id
+            if n == 'Opt':
+                k = I.path.choose(2, 'opt:' + base)
+                if k == 1:
+                    return VNone
+                return self.indexed_of_type(I, ty.args[0], base, i, module)
+            if n == 'Union':
+                k = I.path.choose(len(ty.args), 'union:' + base)
+                return self.indexed_of_type(I, ty.args[k], base, i, module)
+            if n in ('Lit', 'Const'):
+                return self.fresh_of_type(I, ty, base, module)
+            if n == 'Obj':
+                vals = [ast.literal_eval(a) for a in ty.args]
+                cls = self.prog.cls(vals[0], vals[1]) if len(vals) == 2 else self.find_class(vals[0], module)
+                o = VObj(cls, {})
+                o.tag = z3.Function(base + '.id', isort, IntS)(i)
+                for k2, t2 in self.declared_fields(cls).items():
+                    o.fields[k2] = VLazy({'make': (lambda t2=t2, k2=k2: self.indexed_of_type(
+                        I, t2, '%s.%s' % (base, k2), i, cls.module)), 'value': None})
+                self.assume_invariants(I, o)
+                return o
         raise OutOfSubset('indexed field type %s' % ast.unparse(ty))
 
     def find_class(self, name, module):
@@ -548,12 +650,30 @@ class Registry:
                 return m.classes[name]
         raise OutOfSubset('class %s not found' % name)
 
-    def fresh_object(self, I, cls, base):
+    def fresh_object(self, I, cls, base, assume_inv=True):
         obj = VObj(cls, {})
         obj.tag = I.path.fresh_int(base + '.id')
         for k, ty in self.declared_fields(cls).items():
-            obj.fields[k] = self.fresh_of_type(I, ty, base + '.' + k, cls.module)
+            obj.fields[k] = VLazy({'make': (lambda ty=ty, k=k: self.fresh_of_type(I, ty, base + '.' + k, cls.module)),
+                                   'value': None})
+        if assume_inv:
+            self.assume_invariants(I, obj)
         return obj
+
+    def assume_invariants(self, I, obj):
+        """objects of the compiled graph satisfy their class invariant (established by constructors/setters,
+        which are verified separately); infeasible shapes are pruned at once"""
+        from .interp import Frame, PathEnd
+        invs = self.class_invariants(obj.cls)
+        if not invs:
+            return
+        fr = Frame(None, {'self': obj}, obj.cls.module)
+        fr.spec = True
+        fr.old = fr
+        for inv in invs:
+            I.path.assume(I.truth(I.ev(inv, fr)))
+        if not I.path.feasible(z3.BoolVal(True)):
+            raise PathEnd()
 
 
 ALIASES = {
@@ -576,7 +696,14 @@ def _typed_bytes(I, s):
     return VBool(isinstance(s, VSeq) and s.is_bytes)
 
 
+def _ident(I, o):
+    if isinstance(o, VObj) and o.tag is not None:
+        return VInt(o.tag)
+    raise OutOfSubset('ident() of %r' % (o,))
+
+
 PRIMS = {
+    'ident': _ident,
     'implies': _implies,
     'typed_bytes': _typed_bytes,
 }
